@@ -42,7 +42,7 @@ def register(R):
         raises={
             "LimitOverrunError": [
                 ("not-found", "first(T, separator) == -1", "C02"),
-                ("buffer-full", "len(T) + 1 - len(separator) > len(buffer) - 1 - len(separator)", "C07"),
+                ("buffer-full", "len(T) + 1 - len(separator) > len(buffer) - 1 - len(separator)", "C01 C07"),
                 ("consumed", "exc.consumed == len(T) + 1 - len(separator)", "C02"),
                 ("remainder-from-received-bytes-only", "exc.remaining_data == Resync(T, len(T) + 1 - len(separator), separator)", "C02"),
             ]
@@ -97,7 +97,7 @@ def register(R):
                 ("remainder", f"exc.remaining_data == Resync(T, exc.consumed, {sep})", "C02"),
                 ("limit-case",
                  f"({i} == -1 and exc.consumed == len(T) + 1 - len({sep}) and exc.consumed > self.__limit)"
-                 f" or ({i} >= 0 and exc.consumed == {i} and exc.consumed > self.__limit)", "C02 C07"),
+                 f" or ({i} >= 0 and exc.consumed == {i} and exc.consumed > self.__limit)", "C01 C02 C07"),
             ],
             "IncrementalDeserializeError": [
                 ("frame-found", f"{i} >= 0 and {i} <= self.__limit", "C02"),
@@ -140,7 +140,7 @@ def register(R):
         raises={
             "LimitOverrunError": [
                 ("not-found", f"{i} == -1", "C02"),
-                ("buffer-full", "len(T) >= self.__limit - 1", "C07"),
+                ("buffer-full", "len(T) >= self.__limit - 1", "C01 C07"),
                 ("remainder", f"exc.remaining_data == Resync(T, len(T) + 1 - len({sep}), {sep})", "C02"),
                 ("remainder-fits-when-reinjected", "len(exc.remaining_data) < len(buffer)", "C02 C10"),
             ],
